@@ -42,6 +42,9 @@ impl Prop for C08 {
             v.push(case(&[("mode", "key".into()), ("len", l.to_string()), ("rk", rk.into()), ("seed", rng.next().to_string())]));
             if th || l <= 65537 && (rk == "full" || rk == "random") { v.push(case(&[("mode", "pass".into()), ("len", l.to_string()), ("rk", rk.into()), ("seed", rng.next().to_string())])); }
         } }
+        // a sink that accepts a few kilobytes at a time and is briefly unavailable once (every error kind in turn, at every position of the stream):
+        // whenever the encryption reports success all the same, the file has exactly the size the formula gives and the bytes a plain sink would get
+        for mode in ["key", "pass"] { for plen in [65536usize, 140000] { v.push(case(&[("mode", format!("busy-{}", mode)), ("len", plen.to_string()), ("seed", rng.next().to_string())])); } }
         // the tool on a terminal: 0..2 mistyped passwords before the right one, ciphertext to standard output
         for (i, wrongs) in (if th { vec![0usize, 1, 2, 3, 1, 2] } else { vec![0usize, 1, 2] }).into_iter().enumerate() { v.push(case(&[("mode", "tty".into()), ("len", (*[50usize, 0, 70000].get(i % 3).unwrap()).to_string()), ("wrongs", wrongs.to_string()), ("rk", "full".into()), ("seed", rng.next().to_string())])); }
         // freshness of the ephemeral field across a long history on one thread
@@ -52,6 +55,28 @@ impl Prop for C08 {
     fn run(&self, c: &Case, _m: &mut Model) -> Outcome {
         let mut o = Outcome::default();
         if get(c, "mode") == "tty" { return run_tty(c, _m); }
+        if get(c, "mode").starts_with("busy-") {
+            let mut rng = Rng::new(get(c, "seed").parse().unwrap_or(0));
+            let keym = get(c, "mode") == "busy-key"; let plen = getn(c, "len"); let p = rng.bytes(plen);
+            let (s, r, e, pk) = (rng.bytes(32), rng.bytes(32), rng.bytes(32), rng.bytes(32)); let (spk, rpk, epk) = (pub_of(&s), pub_of(&r), pub_of(&e)); let salt = rng.bytes(32);
+            let hdr = if keym { 132 } else { 36 };
+            let enc = |sc: &crate::imp::Scripts| if keym { imp::key_encrypt(&s, &spk, &rpk, Some((&e, &epk)), Some(&pk), &p, sc) } else { imp::pass_encrypt(b"pw", &salt, &p, sc) };
+            let reference = enc(&crate::imp::NOSCRIPT);
+            o.tags.push("busy sink".into()); o.nontrivial = Some(format!("busy/{}/{}", get(c, "mode"), plen));
+            let want_len = hdr + plen + 32 * plen.div_ceil(65536).max(1);
+            if reference.res != "ok" || reference.out.len() != want_len { o.oracle_fail = Some(("length-formula".into(), format!("{} bytes for |P|={}, expected {}", reference.out.len(), plen, want_len))); return o; }
+            let mut successes = 0;
+            for k in 0..40usize {
+                let mut ws: Vec<crate::sio::WrEv> = (0..k).map(|i| crate::sio::WrEv::Accept(1000 + 3096 * (i % 2))).collect(); ws.push(crate::sio::WrEv::ErrOther);
+                let f = enc(&crate::imp::Scripts { rs: &[], ws: &ws, fs: &[] }); o.validated += 1;
+                if f.res != "ok" { continue; }
+                successes += 1;
+                if f.out != reference.out { o.impl_obs = format!("{} bytes, plain sink {} bytes", f.out.len(), reference.out.len());
+                    o.oracle_fail = Some(("length-formula".into(), format!("{} mode, |P|={}: a sink that takes a few KiB per call and fails write call {} once: the encryption reported success and the sink holds {} bytes; the size formula (and a plain sink) give {}", if keym { "key" } else { "password" }, plen, k, f.out.len(), want_len))); return o; }
+            }
+            o.impl_obs = format!("40 fault positions, {} reported success, each byte-identical to the plain-sink file of {} bytes", successes, want_len);
+            return o;
+        }
         if get(c, "mode") == "fresh" {
             // "a fresh ephemeral public key (or random salt)": n files written one after the other by one thread
             let mut rng = Rng::new(get(c, "seed").parse().unwrap_or(0));
